@@ -210,7 +210,7 @@ pub fn operand_env(tier: Tier, seed: u64, reduced: bool) -> Vec<Ent> {
     };
     if reduced {
         let mut v = pick_v(&["b1", "y32g", "nm1", "u64m", "pg", "sm1"]);
-        v.extend(pick_c(&["Native:10", "BigUint:0"]));
+        v.extend(pick_c(&["Native:-0x01", "BigUint:0"]));
         return v;
     }
     if tier.is_thorough() {
@@ -232,7 +232,7 @@ pub fn operand_env(tier: Tier, seed: u64, reduced: bool) -> Vec<Ent> {
         ]));
         v
     } else {
-        let mut v = pick_v(&["b1", "y1", "y32g", "y33", "nm1", "u64m", "u97z", "pg", "sm1"]);
+        let mut v = pick_v(&["b1", "y1", "y32g", "y33", "nm1", "u1m", "u64m", "u97z", "pg", "sm1"]);
         v.extend(pick_c(&["1", "Native:-0x01", "BigUint:0", "2"]));
         v
     }
